@@ -1367,7 +1367,7 @@ def expand_w(t, unique=False):
     MaxExpression", Expression.hpp:158-165); the Chooses keep the name of the WindowedChoose."""
     k = t[0]
     if k == "W":
-        return ["MAX", t[1] + 500, [["C", (t[1] * 100 + i + 1) if unique else t[1], t[2], t[3], x, t[5], t[8]]
+        return ["MAX", t[1] + 5000, [["C", (t[1] * 100 + i + 1) if unique else t[1], t[2], t[3], x, t[5], t[8]]
                                     for i, x in enumerate(w_options(t))]]
     if k in ("MIN", "MAX", "OBJ"):
         return [k, t[1], [expand_w(c, unique) for c in t[2]]]
